@@ -1,8 +1,8 @@
 (* C11 — in-memory serialisation round trips preserve content in every history.  Property theorems only. *)
 From Coq Require Import ZArith List Bool Arith String.
 Import ListNotations.
-From TD Require Import Model.C11_Layout Model.C11_Tree Model.C11_Formats
-  Proofs.C11_LayoutP Proofs.C11_TreeP Proofs.C11_AuxP Proofs.C11_PickleP Proofs.C11_HistP Proofs.C11_WriteP Proofs.C11_FormatsP Proofs.C11_ReorderP Proofs.C11_LockP.
+From TD Require Import Model.C11_Layout Model.C11_Tree Model.C11_Formats Model.C11_Jagged
+  Proofs.C11_JaggedP Proofs.C11_ThreadsP Proofs.C11_LayoutP Proofs.C11_TreeP Proofs.C11_AuxP Proofs.C11_PickleP Proofs.C11_HistP Proofs.C11_WriteP Proofs.C11_FormatsP Proofs.C11_ReorderP Proofs.C11_LockP.
 Open Scope nat_scope.
 
 (* ================================================================= 1. the byte layout (ALL leaf lists, any padding unit) *)
@@ -212,6 +212,78 @@ Theorem C11_struct_fields_refuted : exists sizes, Forall (fun s => 0 < s) sizes 
 Proof. exact struct_fields_refuted. Qed.
 Print Assumptions C11_struct_fields_refuted.
 
+
+(* ================================================================= 5. the codec with jagged tensors, lazy stacks, tensorclass nodes *)
+(* reader (writer t) = t for EVERY tree: any depth, any number of jagged tensors per node, with or without lengths, before /
+   after / between plain leaves, nodes of class TensorDict / tensorclass / lazy stack (members read back by index), inside
+   any storage (pre / post), under any lock state of the ancestors: the tree itself, re-locked as the metadata says, keys
+   regrouped by kind (non-tensors, leaves, nested) *)
+Theorem C11_jagged_codec_roundtrip : forall A np t pl, jkeys_ok_t t = true -> jtree_side A np t ->
+  jrebuild_t true (jencode A np t) pl (fst (jmeta_t A np t 0)) = JOk (jreorder_t (jrelock_t pl t)).
+Proof. exact jcodec_roundtrip. Qed.
+Print Assumptions C11_jagged_codec_roundtrip.
+
+(* the per-node discipline of the two local names nested_values / nested_lengths: what the `leaves` loop of a node returns
+   does not depend on what they held when the loop started -- nothing read for one jagged tensor reaches the next *)
+Theorem C11_jagged_state_independent : forall A np f pre post st st', Forall wf_leaf pre -> jkeys_ok_f f = true ->
+  side A np (total A np (lspecs pre)) (jflat_f f) ->
+  jread_leaves true (encode A np (pre ++ jflat_f f ++ post)) (jmf_lvs A np f (total A np (lspecs pre))) st
+  = jread_leaves true (encode A np (pre ++ jflat_f f ++ post)) (jmf_lvs A np f (total A np (lspecs pre))) st'.
+Proof. exact jread_state_independent. Qed.
+Print Assumptions C11_jagged_state_independent.
+
+(* ... and the reset `nested_lengths = None` at <NJT_VALUES> cannot be dropped: without it a jagged tensor without lengths
+   stored after one with lengths comes back with the first one's lengths *)
+Theorem C11_jagged_reset_necessary :
+  jrebuild_t true (jencode align_unit true t_two_njt) false (fst (jmeta_t align_unit true t_two_njt 0)) = JOk t_two_njt /\
+  exists t', jrebuild_t false (jencode align_unit true t_two_njt) false (fst (jmeta_t align_unit true t_two_njt 0)) = JOk t' /\
+             t' <> t_two_njt /\
+             jpart_l (jents t') = JNjt "j0" (ileaf 3 2 [6] [1; 2; 3; 4; 5; 6]%Z) (Some (ileaf 8 8 [3] [1; 1; 2]%Z)) (ileaf 8 8 [4] [0; 2; 3; 6]%Z)
+               (JLeaf "m" (ileaf 1 1 [3] [7; 8; 9]%Z)
+                 (JNjt "j1" (ileaf 8 8 [4] [10; 11; 12; 13]%Z) (Some (ileaf 8 8 [3] [1; 1; 2]%Z)) (ileaf 8 8 [4] [0; 1; 1; 4]%Z) JNil)).
+Proof. exact njt_reset_necessary. Qed.
+Print Assumptions C11_jagged_reset_necessary.
+
+(* the statement without a condition on the keys is FALSE of the code (finding D116): the markers are tested with
+   str.startswith on user keys *)
+Definition C11_jagged_roundtrip_full_statement : Prop := jroundtrip_statement.
+Theorem C11_jagged_roundtrip_refuted : ~ jroundtrip_statement.
+Proof. exact jroundtrip_marker_keys_refuted. Qed.
+Print Assumptions C11_jagged_roundtrip_refuted.
+
+Theorem C11_jagged_marker_sub_renamed :
+  jtree_side align_unit true t_marker_sub /\
+  exists t', jroundtrip t_marker_sub = JOk t' /\ jfind_sub (jents t') "<TD>x" = None /\ jfind_sub (jents t') "x" <> None.
+Proof. exact jroundtrip_marker_sub_renamed. Qed.
+Print Assumptions C11_jagged_marker_sub_renamed.
+
+Theorem C11_jagged_roundtrip_partial : forall t, jkeys_ok_t t = true -> jtree_side align_unit true t ->
+  jroundtrip t = JOk (jreorder_t (jrelock_t false t)).
+Proof. exact jroundtrip_partial. Qed.
+Print Assumptions C11_jagged_roundtrip_partial.
+
+(* ================================================================= 6. consolidate(num_threads > 0) *)
+(* the per-entry copy tasks, completed in ANY order in which each runs at least once, on a storage with ANY initial content
+   (torch.empty), leave exactly the bytes the single-threaded torch.cat writes *)
+Theorem C11_threads_any_order : forall A np ls, Forall wf_leaf ls -> forall init order,
+  List.length init = total A np (lspecs ls) -> (forall i, i < List.length ls -> In i order) ->
+  run_tasks init (pick_tasks (tasks_from A np 0 ls) order) = encode A np ls.
+Proof. exact threads_any_order. Qed.
+Print Assumptions C11_threads_any_order.
+
+Theorem C11_threads_permutation : forall A np ls, Forall wf_leaf ls -> forall init order,
+  List.length init = total A np (lspecs ls) -> Permutation.Permutation (seq 0 (List.length ls)) order ->
+  run_tasks init (pick_tasks (tasks_from A np 0 ls) order) = encode A np ls.
+Proof. exact threads_permutation. Qed.
+Print Assumptions C11_threads_permutation.
+
+(* ... and a task that is never completed leaves uninitialised bytes: every future must be waited for (fix: D113) *)
+Theorem C11_threads_missing_task_refuted :
+  exists ls init order, Forall wf_leaf ls /\ List.length init = total 16 true (lspecs ls) /\ NoDup order /\
+    run_tasks init (pick_tasks (tasks_from 16 true 0 ls) order) <> encode 16 true ls.
+Proof. exact threads_missing_task_refuted. Qed.
+Print Assumptions C11_threads_missing_task_refuted.
+
 (* ================================================================= non-vacuity *)
 Example C11_ex_layout : layout true [ {| sp_esz := 2; sp_shape := [3] |}; {| sp_esz := 8; sp_shape := [2] |}; {| sp_esz := 1; sp_shape := [0; 4] |} ]
   = [ {| s_start := 0; s_stop := 16; s_pad := 10 |}; {| s_start := 16; s_stop := 32; s_pad := 0 |}; {| s_start := 32; s_stop := 32; s_pad := 0 |} ].
@@ -227,3 +299,20 @@ Example C11_ex_inplace : forallb is_write [OWrite ["n"%string] "b" (l_bytes (i32
 Proof. reflexivity. Qed.
 Example C11_ex_like : like_t ex_tree ex_tree = true /\ nodup_t ex_tree = true.
 Proof. split; reflexivity. Qed.
+
+(* jagged codec: a tree with two jagged tensors (one with lengths), a lazy stack of two members and a tensorclass node *)
+Definition ex_jtree : jtree :=
+  JNode (CTd (jm1 [3]))
+    (JNjt "j0" (ileaf 3 2 [6] [1; 2; 3; 4; 5; 6]%Z) (Some (ileaf 8 8 [3] [1; 1; 2]%Z)) (ileaf 8 8 [4] [0; 2; 3; 6]%Z)
+      (JSub "l" (JNode (CLazy 0 None true)
+                   (JSub "0" (JNode (CTd (jm1 [3])) (JLeaf "x" (ileaf 1 1 [3] [1; 2; 3]%Z) JNil))
+                      (JSub "1" (JNode (CTd (jm1 [3])) (JLeaf "x" (ileaf 1 1 [3] [4; 5; 6]%Z) JNil)) JNil)))
+        (JSub "leaves" (JNode (CTc 0 (jm1 [3])) (JNonT "s" 1 [3] (JLeaf "y" (ileaf 8 8 [3] [7; 8; 9]%Z) JNil)))
+          (JNjt "j1" (ileaf 8 8 [4] [10; 11; 12; 13]%Z) None (ileaf 8 8 [4] [0; 1; 1; 4]%Z) JNil)))).
+Example C11_ex_jagged_side : jkeys_ok_t ex_jtree = true /\ jtree_side align_unit true ex_jtree.
+Proof. split; [reflexivity|]. unfold jtree_side, side. split; [|split; reflexivity]. cbn. repeat constructor. Qed.
+Example C11_ex_jagged_roundtrip : jroundtrip ex_jtree = JOk (jreorder_t (jrelock_t false ex_jtree)).
+Proof. vm_compute. reflexivity. Qed.
+Example C11_ex_threads : let ls := jflat ex_jtree in
+  Forall wf_leaf ls /\ (forall i, i < List.length ls -> In i [3; 3; 0; 7; 1; 6; 2; 5; 4]) /\ List.length ls = 8.
+Proof. cbn. split; [repeat constructor|split; [|reflexivity]]. intros i Hi. do 8 (destruct i as [|i]; [cbn; tauto|]). exfalso. do 8 apply Nat.succ_lt_mono in Hi. inversion Hi. Qed.
